@@ -1,3 +1,5 @@
+import Cuke.Lemmas.SchedFin
+import Cuke.Props.C05
 import Cuke.Lemmas.Sched
 import Cuke.Lemmas.SchedLts
 import Cuke.Model.SchedMon
@@ -277,5 +279,64 @@ theorem lts_no_scenario_event_after_exit (c : SCfg) (pre post : List Label) (sl 
 example : exLog[19]? = some (.idle true false) ∧ Cuke.SchedOrd.Clean0 (accept exCfg (exLog.take 23)) = true := by
   decide +kernel
 
-end Cuke.C03
+/-! ## the last ORDER clause over whole runs: a feature is finished after the last event of its scenarios -/
 
+open Cuke.SchedFin Cuke.SchedSeq Cuke.SchedExit Cuke.SchedOrd in
+/-- **Feature::Finished comes after the last event of the feature's scenarios (retries included).**
+    In every log replayed without a disagreement of either acceptor layer: at the notification at which
+    `FinishedRulesAndFeatures` counts the LAST scenario of feature `f` (where the model owes `Feature::Finished f`,
+    `closes_owes_finished`), and at every later moment of the run, no attempt of any scenario of `f` is in flight … -/
+theorem lts_feature_finished_after_last_attempt (c : SCfg) (hwf : WF c) (pre post : List Label) (id : Nat)
+    (failed retried : Bool) (f : Nat) (hcl : closes c (acceptN c pre).base = some f)
+    (hc : NClean (acceptN c (pre ++ .notif id failed retried :: post)) = true) :
+    ∀ e ∈ (acceptN c (pre ++ .notif id failed retried :: post)).base.running, e.key.feat ≠ f := by
+  obtain ⟨hr, hti⟩ := accF_inv c hwf _ hc
+  have hcl' := closes_recorded c pre post id failed retried f hcl
+  intro e he hef
+  rcases hti with hex | hfi
+  · rw [hex.2.1] at he; cases he
+  · obtain ⟨ft, hft, hx⟩ := owner c hwf _ hr e (by simp [SchedRetry.ents, he])
+    rw [hef] at hft
+    have := hfi.closedLive f ft hft hcl'
+    rw [liveCnt_zero] at this
+    apply this e.key.scen hx
+    right
+    simp only [Rs, SchedCons.scens, mem_map]
+    exact ⟨e, he, rfl⟩
+
+open Cuke.SchedFin Cuke.SchedSeq Cuke.SchedOrd in
+/-- … hence **no scenario event of the feature is ever sent after that notification**: the `Feature::Finished`
+    the model owes from there on (and checks the implementation's stream against) comes after all events of the
+    feature's scenarios. -/
+theorem lts_no_scenario_event_after_feature_closed (c : SCfg) (hwf : WF c) (pre p1 p2 : List Label) (id : Nat)
+    (failed retried : Bool) (f : Nat) (k : ScenKey) (ret : Option Retries) (se : ScenEv)
+    (hcl : closes c (acceptN c pre).base = some f)
+    (hc : NClean (acceptN c (pre ++ .notif id failed retried :: (p1 ++ .tx (.scen k ret se) :: p2))) = true) :
+    k.feat ≠ f := by
+  have hsplit : acceptN c (pre ++ .notif id failed retried :: (p1 ++ .tx (.scen k ret se) :: p2)) =
+      p2.foldl (stepN c) (stepN c (acceptN c (pre ++ .notif id failed retried :: p1)) (.tx (.scen k ret se))) := by
+    simp [acceptN, foldl_append]
+  rw [hsplit] at hc
+  have h1 : NClean (stepN c (acceptN c (pre ++ .notif id failed retried :: p1)) (.tx (.scen k ret se))) = true :=
+    nclean_foldl_mono c p2 _ hc
+  have h0 : NClean (acceptN c (pre ++ .notif id failed retried :: p1)) = true := nclean_step_mono c _ _ h1
+  have hrun := lts_feature_finished_after_last_attempt c hwf pre p1 id failed retried f hcl h0
+  have hc0 : Clean0 (stepL c (acceptN c (pre ++ .notif id failed retried :: p1)).base (.tx (.scen k ret se))) = true := by
+    simp only [NClean, Bool.and_eq_true] at h1
+    have := h1.1
+    rwa [stepN_base] at this
+  obtain ⟨e, he, hk⟩ := tx_scen_running c _ k ret se hc0
+  rw [← hk]
+  exact hrun e he
+
+/-- non-vacuity: in the retry example run (clean in both layers) the notification at position 24 closes feature 0, the
+    model owes `Feature::Finished 0` right after it, and the run goes on (the event is sent, `get` is called again) -/
+example : Cuke.SchedSeq.NClean (acceptN Cuke.C05.rcfg Cuke.C05.rlog) = true ∧
+    Cuke.SchedFin.closes Cuke.C05.rcfg (acceptN Cuke.C05.rcfg (Cuke.C05.rlog.take 24)).base = some 0 ∧
+    Cuke.C05.rlog[24]? = some (.notif 11 false false) ∧
+    (acceptN Cuke.C05.rcfg (Cuke.C05.rlog.take 25)).base.expect.map (fun x => match x with | .one e => some e | _ => none) =
+      [some (.featFinished 0)] := by decide +kernel
+/-- the earlier notification (of the attempt that is retried) closes nothing -/
+example : Cuke.SchedFin.closes Cuke.C05.rcfg (acceptN Cuke.C05.rcfg (Cuke.C05.rlog.take 16)).base = none := by decide +kernel
+
+end Cuke.C03
